@@ -233,6 +233,7 @@ PROPS = {
             regress("C20"),
             {"run": "^TestC20$", "quick": 8000, "thorough": 60000},
             {"run": "^TestC20Late$", "quick": 1, "thorough": 1, "single": True, "rapid": False},
+            {"run": "^TestC20Root$", "quick": 1, "thorough": 1, "single": True, "rapid": False},
         ],
     },
     "C12": {
